@@ -528,4 +528,42 @@ def Ctx.runC (K : Ctx) : COp → CRes
   | .invert => K.invertC
   | .eq K' => K.eqC K'
 
+/-! ## histories on one table object
+
+  `AbstractBinTable.data` is a public read/write property: the setter runs `_transform_data` and
+  `_validate_data` on the new value and replaces `_data, _height, _width`; no other attribute of a
+  table exists, so the table afterwards is exactly the table built from the new value.
+  For a context, `ctx.data.data = ...`, `ctx.object_names = ...`, `ctx.attribute_names = ...`. -/
+
+/-- one step in the life of a table object -/
+inductive Step where
+  | query (op : Op)                 -- any operation; its answer is observed
+  | setData (rows : List Row)       -- `bt.data = rows` (a list of lists of bools)
+  deriving Repr, Inhabited
+
+/-- `bt.data = rows` on backend `b`: `_transform_data` sees list-of-lists data, i.e. the data class
+    `BinTableLists`; for another backend it goes through `BinTableLists(rows).to_list()` -/
+def setData (b : Backend) (rows : List Row) : Table := convert .lists b (Table.ofRows rows)
+
+/-- the observed answers of a history started on table `t` held by backend `b` -/
+def runHist (b : Backend) : Table → List Step → List Res
+  | _, [] => []
+  | t, .query op :: rest => run b op t :: runHist b t rest
+  | _, .setData rows :: rest => runHist b (setData b rows) rest
+
+/-- one step in the life of a context -/
+inductive CStep where
+  | query (op : COp)
+  | setData (rows : List Row)            -- `ctx.data.data = rows`
+  | setObjNames (names : List String)    -- `ctx.object_names = names`
+  | setAttrNames (names : List String)   -- `ctx.attribute_names = names`
+  deriving Repr, Inhabited
+
+def Ctx.runHist : Ctx → List CStep → List CRes
+  | _, [] => []
+  | K, .query op :: rest => K.runC op :: Ctx.runHist K rest
+  | K, .setData rows :: rest => Ctx.runHist { K with table := setData K.backend rows } rest
+  | K, .setObjNames ns :: rest => Ctx.runHist { K with objNames := ns } rest
+  | K, .setAttrNames ns :: rest => Ctx.runHist { K with attrNames := ns } rest
+
 end Fca
